@@ -2,7 +2,10 @@ module zvharness
 
 go 1.23
 
-require github.com/zenon-network/go-zenon v0.0.0
+require (
+	github.com/inconshreveable/log15 v0.0.0-20201112154412-8562bdadbbac
+	github.com/zenon-network/go-zenon v0.0.0
+)
 
 require (
 	github.com/btcsuite/btcd/btcutil v1.1.3 // indirect
@@ -14,7 +17,6 @@ require (
 	github.com/gorilla/websocket v1.5.0 // indirect
 	github.com/hashicorp/golang-lru v0.5.5-0.20210104140557-80c98217689d // indirect
 	github.com/huin/goupnp v1.0.3 // indirect
-	github.com/inconshreveable/log15 v0.0.0-20201112154412-8562bdadbbac // indirect
 	github.com/jackpal/go-nat-pmp v1.0.2 // indirect
 	github.com/mattn/go-colorable v0.1.12 // indirect
 	github.com/mattn/go-isatty v0.0.14 // indirect
